@@ -606,6 +606,112 @@ func (w *walker) Visit(n ast.Node) ast.Visitor {
 	return w
 }
 
+// packageFacts re-establishes, from the typed source, the package-level facts some discharges rely on.
+func packageFacts(dir string, pkg *types.Package, files []*ast.File, info *types.Info, fset *token.FileSet) [][2]string {
+	var out [][2]string
+	text := func(n ast.Node) string {
+		var b bytes.Buffer
+		printer.Fprint(&b, fset, n)
+		return strings.Join(strings.Fields(b.String()), " ")
+	}
+	switch dir {
+	case "cron":
+		// every SpecSchedule the package constructs gets its Location from a variable (never a nil literal, never omitted)
+		total, ok := 0, 0
+		for _, f := range files {
+			ast.Inspect(f, func(n ast.Node) bool {
+				cl, isLit := n.(*ast.CompositeLit)
+				if !isLit {
+					return true
+				}
+				t := info.Types[cl].Type
+				if t == nil {
+					return true
+				}
+				if named, isNamed := t.(*types.Named); !isNamed || named.Obj().Name() != "SpecSchedule" {
+					return true
+				}
+				total++
+				for _, e := range cl.Elts {
+					if kv, isKV := e.(*ast.KeyValueExpr); isKV {
+						if k, isID := kv.Key.(*ast.Ident); isID && k.Name == "Location" {
+							if v, isVar := kv.Value.(*ast.Ident); isVar && v.Name != "nil" {
+								ok++
+							}
+						}
+					}
+				}
+				return true
+			})
+		}
+		out = append(out, [2]string{"cron.SpecSchedule literals with Location set from a variable", fmt.Sprintf("%d of %d", ok, total)})
+	case "schemes/enc/v1":
+		// BufPool: New returns *[]byte and every Put in the package passes a *[]byte
+		puts, good := 0, 0
+		newOK := false
+		want := types.NewPointer(types.NewSlice(types.Typ[types.Byte]))
+		for _, f := range files {
+			ast.Inspect(f, func(n ast.Node) bool {
+				switch x := n.(type) {
+				case *ast.CallExpr:
+					if sel, isSel := x.Fun.(*ast.SelectorExpr); isSel && sel.Sel.Name == "Put" && text(sel.X) == "BufPool" && len(x.Args) == 1 {
+						puts++
+						if t := info.Types[x.Args[0]].Type; t != nil && types.Identical(t, want) {
+							good++
+						}
+					}
+				case *ast.ValueSpec:
+					for i, name := range x.Names {
+						if name.Name != "BufPool" || i >= len(x.Values) {
+							continue
+						}
+						ast.Inspect(x.Values[i], func(m ast.Node) bool {
+							if fl, isFn := m.(*ast.FuncLit); isFn {
+								allPtr, rets := true, 0
+								ast.Inspect(fl.Body, func(r ast.Node) bool {
+									if ret, isRet := r.(*ast.ReturnStmt); isRet && len(ret.Results) == 1 {
+										rets++
+										if t := info.Types[ret.Results[0]].Type; t == nil || !types.Identical(t, want) {
+											allPtr = false
+										}
+									}
+									return true
+								})
+								newOK = rets > 0 && allPtr
+							}
+							return true
+						})
+					}
+				}
+				return true
+			})
+		}
+		out = append(out, [2]string{"enc.BufPool holds *[]byte only (New's result, Put arguments in the package)", fmt.Sprintf("New: %v; Put: %d of %d", newOK, good, puts)})
+	case "crypto":
+		// the hashes crypto.Hash.New() is called for are linked into every binary that links this package
+		seen := map[string]bool{}
+		var walk func(p *types.Package)
+		walk = func(p *types.Package) {
+			if seen[p.Path()] {
+				return
+			}
+			seen[p.Path()] = true
+			for _, q := range p.Imports() {
+				walk(q)
+			}
+		}
+		walk(pkg)
+		have := []string{}
+		for _, h := range []string{"crypto/sha1", "crypto/sha256", "crypto/sha512"} {
+			if seen[h] {
+				have = append(have, h)
+			}
+		}
+		out = append(out, [2]string{"hash packages in the transitive imports of package crypto", strings.Join(have, ",")})
+	}
+	return out
+}
+
 func fail(format string, a ...any) {
 	fmt.Fprintf(os.Stderr, "factgen_c07: unknown shape: "+format+"\n", a...)
 	os.Exit(1)
@@ -679,6 +785,7 @@ func main() {
 	os.Chdir(*repo) // the source importer resolves module imports relative to the working directory
 	imp := importer.ForCompiler(fset, "source", nil)
 	var sites []site
+	var facts [][2]string
 	for _, d := range dirs {
 		entries, err := os.ReadDir(filepath.Join(*repo, d))
 		if err != nil {
@@ -724,9 +831,12 @@ func main() {
 		info := &types.Info{Types: map[ast.Expr]types.TypeAndValue{}, Uses: map[*ast.Ident]types.Object{}, Defs: map[*ast.Ident]types.Object{}}
 		var terrs []string
 		conf := types.Config{Importer: imp, Error: func(err error) { terrs = append(terrs, err.Error()) }}
-		conf.Check("github.com/dapr/kit/"+d, fset, files, info)
+		pkg, _ := conf.Check("github.com/dapr/kit/"+d, fset, files, info)
 		if len(terrs) > 0 {
 			fail("type errors in %s (source importer offline?): %s", d, strings.Join(terrs[:min(len(terrs), 5)], "; "))
+		}
+		if pkg != nil {
+			facts = append(facts, packageFacts(d, pkg, files, info, fset)...)
 		}
 		pkgLits := map[*types.Var]int{}
 		for _, f := range files {
@@ -857,6 +967,15 @@ func main() {
 	}
 	b.WriteString(strings.Join(parts, " ++ "))
 	fmt.Fprintf(&b, "\n\ndef siteCount : Nat := %d\n\n", len(sites))
+	b.WriteString("/-- package-level facts the inventory relies on, re-established from the source on every run -/\ndef facts : List (String × String) := [\n")
+	for i, f := range facts {
+		sep := ","
+		if i == len(facts)-1 {
+			sep = ""
+		}
+		fmt.Fprintf(&b, "  (%s, %s)%s\n", leanStr(f[0]), leanStr(f[1]), sep)
+	}
+	b.WriteString("]\n\n")
 	files := append([]string{}, anchored...)
 	sort.Strings(files)
 	fl := make([]string, len(files))
